@@ -8,7 +8,7 @@ from spec import c08 as S
 ABC = [(0x61, 0x63)]
 LABEL = [(0x61, 0x7A), (0x30, 0x39)]
 BOUNDS = {
-    "quick": "(b) every rule set of <= 3 rules of the shapes L, L.L, L.L.L, *.L, *.L.L, !L.L, !L.L.L (L = a symbolic label in {a,b,c}) x every hostname of depth 1..4 over {a,b,c}; "
+    "quick": "(b) every rule set of <= 2 rules (3 rules when short) of the shapes L, L.L, L.L.L, *.L, *.L.L, !L.L, !L.L.L (L = a symbolic label in {a,b,c}) x every hostname of depth 1..4 over {a,b,c}; "
              "(a) bundled list: 40 rule families (plain 1-3 labels, wildcard with and without explicit children, exception rules, private suffixes) with 1-2 symbolic labels [a-z0-9]{1,2} placed in front of / inside the rule; "
              "(c) surface claims on 8 host skeletons with holes of length 0..2",
     "thorough": "rule sets of <= 4 rules; symbolic labels of up to 3 characters",
@@ -75,7 +75,7 @@ def items(tier):
     kmax = 3 if quick else 4
     for k in range(1, kmax + 1):
         for shapes in itertools.combinations_with_replacement(range(len(SHAPES)), k):
-            if k >= 3 and quick and sum(len(SHAPES[s]) for s in shapes) > 13:
+            if k >= 3 and quick and sum(len(SHAPES[s]) for s in shapes) > 10:
                 continue
             if k == 4 and sum(len(SHAPES[s]) for s in shapes) > 14:
                 continue
